@@ -16,10 +16,12 @@ from hxsim.stepclock import SimAbort, StepBudgetExceeded, StepClock
 
 PROPERTY = 'C03'
 STREAMS = {
-    'threads': {'quick': 12000, 'thorough': 300000, 'chunk': 100},
+    'threads': {'quick': 9000, 'thorough': 300000, 'chunk': 100},
     'nest': {'quick': 9000, 'thorough': 250000, 'chunk': 150},
     # every step k of evaluation A: A runs k steps, B runs one complete evaluation, A resumes
-    'sweep': {'quick': 800, 'thorough': 40000, 'chunk': 10, 'selftest_max': 12},
+    'sweep': {'quick': 600, 'thorough': 40000, 'chunk': 10, 'selftest_max': 12},
+    # histories of registrations (set_variable / set_function / on / once / off) interleaved over 2-3 parsers
+    'isolation': {'quick': 5000, 'thorough': 200000, 'chunk': 150},
 }
 CLOCK0 = '2024-02-29T13:14:15.161718'
 
@@ -47,9 +49,114 @@ def gen_sweep(rng, i):
             'points': 'all' if rng.random() < 0.1 else 'function_body'}
 
 
+ISO_VARS = ['va', 'vb', 'Rate']
+ISO_FNS = ['FA', 'FB', 'SUM']
+ISO_FORMS = ['va', 'vb+1', 'Rate&"x"', 'FA()', 'FB(1)', 'SUM(1,2)', 'A1', 'B2:A1', 'A1+va', 'PI()', 'FA()+A1', 'IF(va,FB(2),A1)',
+             'TRUE', 'LEN("ab")', '{1,2}', 'va&vb&Rate', 'SUM(A1:B2)', 'FA()&FB()', 'zz_top']
+
+
+def gen_isolation(rng, i):
+    """Operations on several parsers drawn from ONE small namespace, so that every name one parser registers is a
+    name the others use unbound.  Parsers start empty (70 %) or with a generated host."""
+    n = rng.choice([2, 2, 3])
+    slots = []
+    for _ in range(n):
+        if rng.random() < 0.7:
+            slots.append({'debug': False, 'variables': {}, 'functions': {}, 'listeners': {}})
+        else:
+            slots.append(scen.gen_slot(rng, fault=0.0, hostile=False))
+    ops = []
+    tokn = [0]
+
+    def val():
+        tokn[0] += 1
+        return rng.choice([V.I(1000 + tokn[0]), V.S('t%d' % tokn[0]), V.I(0), V.FALSE, V.L(V.I(tokn[0]))])
+    for _ in range(rng.choice([4, 8, 12, 20, 30])):
+        p = rng.randrange(n)
+        r = rng.random()
+        if r < 0.12:
+            ops.append(['var', p, rng.choice(ISO_VARS), val()])
+        elif r < 0.22:
+            ops.append(['fn', p, rng.choice(ISO_FNS), [{'a': 'ret', 'v': val()}]])
+        elif r < 0.34:
+            ops.append(['on', p, rng.choice(EVENTS), [{'a': 'set', 'v': [val()]}]])
+        elif r < 0.40:
+            ops.append(['once', p, rng.choice(EVENTS), [{'a': 'set', 'v': [val()]}]])
+        elif r < 0.50:
+            ops.append(['off', p, rng.choice(EVENTS)])
+        elif r < 0.56:
+            ops.append(['offcb', p, rng.choice(EVENTS), rng.randrange(3)])
+        else:
+            ops.append(['eval', p, rng.choice(ISO_FORMS) if rng.random() < 0.8 else formgen.g3_tree(rng, formgen.Env(variables=ISO_VARS, functions={'FA': 0, 'FB': 1}), 1)])
+    for p in range(n):
+        for f in rng.sample(ISO_FORMS, 4):
+            ops.append(['eval', p, f])
+    return {'engine': 'isolation', 'slots': slots, 'ops': ops, 'clock': CLOCK0, 'rand': 0.25}
+
+
+def iso_run(slots, ops, only=None):
+    """Apply the operations (all of them, or only parser `only`'s) and return the canonical outcome of every
+    evaluation, keyed by operation index.  Also used in the clean room."""
+    seams.CLOCK.set(CLOCK0)
+    seams.CLOCK.tick = None
+    seams.RANDOM.c = 0.25
+    world = World([s if (only is None or k == only) else None for k, s in enumerate(slots)])
+    clock = StepClock()
+    counters = {}
+    out = {}
+    for k, op in enumerate(ops):
+        p = op[1]
+        if only is not None and p != only:
+            continue
+        slot = world.slots[p]
+        kind = op[0]
+        if kind == 'var':
+            slot.bind_variable(op[2], op[3])
+        elif kind == 'fn':
+            slot.bind_function(op[2], op[3])
+        elif kind in ('on', 'once'):
+            key = (p, op[2])
+            idx = 100 + counters.get(key, 0)
+            counters[key] = counters.get(key, 0) + 1
+            slot.bind_listener(op[2], idx, op[3], once=(kind == 'once'))
+        elif kind == 'off':
+            slot.parser.off(op[2])
+        elif kind == 'offcb':
+            fn = slot.listener_fns.get('%s#%d' % (op[2], 100 + op[3]))
+            if fn is not None:
+                slot.parser.off(op[2], fn)
+        elif kind == 'eval':
+            out[k] = _eval(world, clock, p, op[2], 200)
+    return out
+
+
+def execute_isolation(sc, stats):
+    from hxsim import cleanroom
+    ops = sc['ops']
+    n = len(sc['slots'])
+    # each parser alone, in a process that has never seen the other parsers
+    want = {}
+    for p in range(n):
+        want.update(cleanroom.call('checks.c03', 'iso_run', sc['slots'], ops, p))
+    got = iso_run(sc['slots'], ops)
+    stats['evals'] += len(got)
+    for op in ops:
+        stats['fault:isolation_op_%s' % op[0]] += 1
+    sc['_nt'] = len(ops) > 0
+    for k in sorted(got):
+        if got[k] != want.get(k):
+            op = ops[k]
+            return [{'invariant': 'P1_registrations_leak_between_parsers', 'sig': 'P1',
+                     'detail': {'op': k, 'parser': op[1], 'formula': _esc(op[2]), 'among_other_parsers': got[k],
+                                'alone': want.get(k), 'ops_before': [o[:3] for o in ops[:k]][-12:]}}]
+    return []
+
+
 def gen(stream, rng, i, cfg):
     if stream == 'nest':
         return gen_nest(rng, i)
+    if stream == 'isolation':
+        return gen_isolation(rng, i)
     if stream == 'sweep':
         return gen_sweep(rng, i)
     nthreads = rng.choice([2, 2, 2, 3, 4])
@@ -406,6 +513,12 @@ def execute_nest(sc, stats):
     got = _eval(world, clock, sc['outer'][0], sc['outer'][1], elems)
     stats['evals'] += 1
     stats['steps'] += clock.steps
+    if world.max_depth > 1 + len(sc['sites']):
+        # the scripted host itself recursed (a nested formula triggers the site it was started from): an artefact of
+        # generation or shrinking, not something the library did
+        stats['discarded_host_recursion'] += 1
+        sc['_nt'] = False
+        return []
     for kname, n in world.fired.items():
         stats['fault:' + kname] += n
     stats['probe:max_nesting_depth[%d]' % world.max_depth] += 1
@@ -512,6 +625,8 @@ def execute_sweep(sc, stats):
 def execute(sc, stats):
     if sc.get('engine') == 'nest':
         return execute_nest(sc, stats)
+    if sc.get('engine') == 'isolation':
+        return execute_isolation(sc, stats)
     if sc.get('engine') == 'sweep':
         return execute_sweep(sc, stats)
     return execute_threads(sc, stats)
@@ -523,6 +638,8 @@ def nontrivial(sc, stats):
         return None
     if sc.get('engine') == 'nest':
         return canon.digest_int([sc['slots'], sc['outer']])
+    if sc.get('engine') == 'isolation':
+        return canon.digest_int([sc['slots'], sc['ops']])
     return canon.digest_int([sc['slots'], sc['threads'], sc.get('_schedule_observed')])
 
 
@@ -531,6 +648,17 @@ def shrink_candidates(sc):
     if sc.get('engine') == 'nest':
         for c in _shrink_nest(sc):
             yield c
+        return
+    if sc.get('engine') == 'isolation':
+        for c in scen.shrink_list(sc['ops'], 1):
+            d = dict(sc)
+            d['ops'] = c
+            yield d
+        for si, slot in enumerate(sc['slots']):
+            for s in scen.shrink_slot(slot):
+                d = dict(sc)
+                d['slots'] = sc['slots'][:si] + [s] + sc['slots'][si + 1:]
+                yield d
         return
     if sc.get('engine') == 'sweep':
         ks = sc.get('ks', [])
@@ -625,14 +753,17 @@ def describe():
                 '3/30/300/3000 steps, single interposition at step k, ping-pong every n steps), compared with each thread run '
                 'alone in a world that holds only its own parsers; sweep: two formulas (75%: the same built-in, argument shapes chosen by '
                 'parameter name, the built-in walking the whole registry with the run index) where B\'s complete evaluation is '
-                'interposed after EVERY step k of A\'s; nest: one run = an outer evaluation whose callback site '
+                'interposed after EVERY step k of A\'s; isolation: histories of set_variable/set_function/on/once/off over 2-3 parsers '
+                'sharing one small namespace, every parser compared with itself alone in a pristine process; nest: one run = an outer evaluation whose callback site '
                 '(custom function or listener of any of the four event kinds) evaluates a complete formula on another pre-built '
                 'parser, the same parser, or a parser built on the spot, to depth 2, compared bottom-up with nesting-free '
                 'references; evaluations = top-level evaluations under the schedule / outer evaluations; distinct = distinct '
                 '(slots, tasks, observed decision list) resp. (slots, outer formula); non-trivial = at least one context switch '
                 'happened inside an evaluation resp. at least one nested evaluation was actually performed',
         'fault_kinds': ['ctx_switch', 'schedule_random', 'schedule_single', 'schedule_pingpong', 'single_interposition_point',
-                        'nested_other', 'nested_same', 'nested_build', 'nested_depth2', 'cb_raise', 'listener_raise'],
+                        'nested_other', 'nested_same', 'nested_build', 'nested_depth2', 'cb_raise', 'listener_raise',
+                        'isolation_op_var', 'isolation_op_fn', 'isolation_op_on', 'isolation_op_once', 'isolation_op_off',
+                        'isolation_op_offcb'],
         'real_vs_stub': {'hotxlfp (all of it)': 'real', 'ply lex/yacc, dateutil': 'real', 'host callbacks': 'scripted',
                          'caller threads': 'real threading.Thread objects; who runs is decided only by the simulator (baton)',
                          'OS scheduler / GIL switching': 'replaced by the seeded decision list',
